@@ -112,3 +112,64 @@ def run_config(chk, facts):
                               "characters with Private Use glyphs")
         chk.floor("C08-b", "map_impl call sites in CodepointSubtable::map", nmap, 2)
     chk.floor("C08-a", "functions analysed in write-fonts/src/tables/cmap.rs", len(bodies), 20)
+    narrowing_census(chk, facts)
+
+
+# ---- C08-c: narrowing casts in the character-map readers ------------------------------------------------------------------
+NARROWING_CONFIRMED = {
+    ("skrifa::charmap::MappingSelection::<'a>::new", "usize->u16"):
+        (2, "index of an encoding record: `enumerate()` over an array whose count field is a u16 (one in the loop, one in the closure)"),
+    ("read_fonts::tables::cmap::<impl read_fonts::table_ref::TableRef<'a, read_fonts::tables::cmap::Cmap4Marker>>::lookup_glyph_id", "i32->u16"):
+        (2, "`(x as i32 + id_delta) as u16`: the specification defines the result modulo 65536"),
+    ("<read_fonts::tables::cmap::Cmap12Iter<'_> as core::iter::traits::iterator::Iterator>::next", "u64->u32"):
+        (1, "the u64 range runs from a u32 start to a u32 end + 1 (exclusive), so every value it yields fits u32"),
+    ("<read_fonts::tables::cmap::Cmap4Iter<'_> as core::iter::traits::iterator::Iterator>::next", "u32->u16"):
+        (2, "the u32 range runs from a u16 start to a u16 end + 1: yielded code points fit u16; a start of 0x10000 only occurs for an empty range"),
+    ("read_fonts::tables::cmap::Cmap4Iter::<'a>::new", "u32->u16"):
+        (1, "start of the first range, built from a u16 start code"),
+}
+
+
+def narrowing_census(chk, facts):
+    from ..rules.sites import norm_fn
+    chk.rule("C08-c", "T-CAST: census of narrowing integer casts in skrifa/src/charmap.rs and read-fonts/src/tables/cmap.rs: each is "
+                      "proved lossless by the interval analysis (a range test dominates it) or is one of the confirmed sites; a new "
+                      "truncating cast of a code point or glyph id (which makes distinct characters collide) is a violation")
+    n = n_ok = 0
+    unproven = {}
+    for c, frx in (("skrifa", r"skrifa/src/charmap\.rs$"), ("read_fonts", r"read-fonts/src/tables/cmap\.rs$")):
+        if c not in facts.crates:
+            continue
+        for b in facts.bodies_in_files(c, [frx]):
+            if b.generated:
+                continue
+            iv = None
+            for bb, j, st in b.stmts():
+                if st[0] != "A" or st[2][0] != "cast" or st[2][1] != "IntToInt":
+                    continue
+                to, frm = st[2][3], st[2][4]
+                tr, fr = ty_range(to), ty_range(frm)
+                if tr is None or fr is None or (tr[0] <= fr[0] and tr[1] >= fr[1]):
+                    continue
+                n += 1
+                if iv is None:
+                    iv = Intervals(b)
+                s = iv.state_before_stmt(bb, j) if iv.converged else None
+                r = iv.rng(s, st[2][2]) if s is not None else None
+                if iv.converged and (s is None or (r is not None and tr[0] <= r[0] and r[1] <= tr[1])):
+                    n_ok += 1
+                    continue
+                key = (re.sub(r"::\{closure#\d+\}", "", b.path), f"{frm}->{to}")
+                unproven.setdefault(key, []).append((b, st[3][0] if len(st) > 3 and st[3] else b.lo, r))
+    for key, sites in sorted(unproven.items()):
+        allowed, why = NARROWING_CONFIRMED.get(key, (0, None))
+        b = sites[0][0]
+        chk.ob("C08-c", f"{key[0].split('::')[-1]}: {len(sites)} unproven `{key[1]}` cast(s) at line(s) {sorted(l for _, l, _ in sites)}"
+                        + (f" -- confirmed: {why}" if why else ""), len(sites) <= allowed,
+               key=f"{key[0]}|narrowing|{key[1]}", file=b.file, line=max(l for _, l, _ in sites), fn=b.path,
+               detail=f"a cast from {key[1].split('->')[0]} to {key[1].split('->')[1]} of a value the analysis cannot bound "
+                      f"({sites[-1][2]}) was added to the character-map lookup path: values that differ only above the target width "
+                      f"become the same code point / glyph id")
+    chk.stats["C08-c:narrowing_casts"] = n
+    chk.stats["C08-c:proved_lossless"] = n_ok
+    chk.floor("C08-c", "narrowing casts in the character-map readers", n, 8)
